@@ -445,7 +445,7 @@ func reference(t *tcase, snap map[string]map[string]any) expectation {
 			req.Input = mustStruct(map[string]any{"apiVersion": "fn.ex.org/v1", "kind": "Input", "marker": fmt.Sprintf("input-%d", si)})
 		}
 		if st.Creds {
-			req.Credentials["main"] = &fnv1.Credentials{Source: &fnv1.Credentials_CredentialData{CredentialData: &fnv1.CredentialData{Data: secretDataOf(snap, "crossplane-system", fmt.Sprintf("creds-%d", si))}}}
+			req.Credentials["main"] = &fnv1.Credentials{Source: &fnv1.Credentials_CredentialData{CredentialData: &fnv1.CredentialData{Data: secretDataOf(snap, fmt.Sprintf("team-%d", si), "cloud-creds")}}}
 		}
 		var prev *fnv1.Requirements
 		var step []*fnv1.RunFunctionRequest
@@ -516,8 +516,9 @@ func (w *worker) run(i int, name string) {
 	user := world.Client("user")
 	for f, st := range t.Steps {
 		if st.Creds {
-			steps[f].(map[string]any)["credentials"] = []any{map[string]any{"name": "main", "source": "Secret", "secretRef": map[string]any{"namespace": "crossplane-system", "name": fmt.Sprintf("creds-%d", f)}}}
-			world.MustSeed("user", map[string]any{"apiVersion": "v1", "kind": "Secret", "metadata": map[string]any{"namespace": "crossplane-system", "name": fmt.Sprintf("creds-%d", f)},
+			// every step's credentials Secret has the same NAME, in a namespace of its own
+			steps[f].(map[string]any)["credentials"] = []any{map[string]any{"name": "main", "source": "Secret", "secretRef": map[string]any{"namespace": fmt.Sprintf("team-%d", f), "name": "cloud-creds"}}}
+			world.MustSeed("user", map[string]any{"apiVersion": "v1", "kind": "Secret", "metadata": map[string]any{"namespace": fmt.Sprintf("team-%d", f), "name": "cloud-creds"},
 				"data": map[string]any{"token": base64.StdEncoding.EncodeToString([]byte(fmt.Sprintf("t%d", f)))}})
 		}
 	}
